@@ -430,19 +430,21 @@ static void dump_counters(void) {
     for (int i = 0; i < nctr; i++)
         res_printf("%s\t%s\t%ld\n", ctr[i].is_max ? "M" : "C", ctr[i].name, ctr[i].v);
     nctr = 0;
+    /* distinct-hash sets (append; the driver unions them), written with open/write only */
+    if (strcmp(VF.out, "/dev/null")) for (int i = 0; i < ndsets; i++) {
+        char p[700]; snprintf(p, sizeof p, "%s.dist.%s", VF.out, dsets[i].name);
+        int fd = open(p, O_WRONLY | O_CREAT | O_APPEND, 0644);
+        if (fd < 0) continue;
+        uint64_t buf[512]; size_t nb = 0;
+        for (size_t k = 0; k < dsets[i].cap; k++) if (dsets[i].tab[k]) { buf[nb++] = dsets[i].tab[k]; if (nb == 512) { if (write(fd, buf, nb * 8) < 0) break; nb = 0; } }
+        if (nb && write(fd, buf, nb * 8) < 0) { /* ignore */ }
+        close(fd);
+        memset(dsets[i].tab, 0, dsets[i].cap * 8); dsets[i].n = 0;
+    }
 }
 static int real_viols;
 int vf_finish(void) {
     dump_counters();
-    for (int i = 0; i < ndsets; i++) {
-        char p[700]; snprintf(p, sizeof p, "%s.dist.%s", VF.out, dsets[i].name);
-        if (!strcmp(VF.out, "/dev/null")) continue;
-        FILE *f = fopen(p, "ab");
-        if (!f) continue;
-        for (size_t k = 0; k < dsets[i].cap; k++)
-            if (dsets[i].tab[k]) fwrite(&dsets[i].tab[k], 8, 1, f);
-        fclose(f);
-    }
     res_printf("DONE\t%d\n", vf_nviol);
     return vf_nviol ? 1 : 0;
 }
